@@ -346,6 +346,19 @@ def run_side(case, which):
 
 
 def check(case):
+    if case.get("warnings") == "error":
+        # the program runs with warnings turned into errors (python -W error, pytest's filterwarnings = error): the
+        # library does not go through deprecated interfaces, so nothing changes
+        import warnings
+
+        with warnings.catch_warnings():
+            warnings.simplefilter("error")
+            warnings.filterwarnings("ignore", message="coroutine .* was never awaited")
+            return _check(case)
+    return _check(case)
+
+
+def _check(case):
     got, alog = run_side(case, "a")
     want, slog = run_side(case, "s")
     block = case["block"]
@@ -390,6 +403,7 @@ def variations(draw):
             "use": draw(st.sampled_from(["with", "with", "decorator"])),
             "call": draw(st.sampled_from(sorted(CALLS))), "body_call": draw(st.sampled_from(sorted(CALLS))),
             "in_handler": draw(st.booleans()), "reuse": draw(st.sampled_from([False, False, True])),
+            "warnings": draw(st.sampled_from(["default", "default", "error"])),
             "given_as": draw(st.sampled_from(sorted(PROGRAM_FLAVOURS) + ["def", "def"]))}
 
 
